@@ -112,7 +112,33 @@ Record openvpn_cfg := OpenVPN {
   ov_server_key : option (bool * string);
   ov_client_keys : list string; ov_client_key_files : list string }.
 
+(* tls.handshake_match matchers usable inside the tls / quic matchers (l4tls.ParseCaddyfileNestedMatcherSet) *)
+Inductive tlsm :=
+| TSni (names : list string)
+| TAlpn (vals : list string)
+| TRemoteIP (rs : list (bool * range))      (* (written with a leading "!", range) *)
+| TLocalIP (rs : list range).
+Definition tlsm_name (t : tlsm) : string :=
+  match t with TSni _ => "sni" | TAlpn _ => "alpn" | TRemoteIP _ => "remote_ip" | TLocalIP _ => "local_ip" end.
+Definition neg_word (nr : bool * range) : string :=
+  if fst nr then String "!" (range_word (snd nr)) else range_word (snd nr).
+Definition tlsm_seg (t : tlsm) : seg :=
+  Seg (tlsm_name t :: match t with
+                      | TSni l | TAlpn l => l
+                      | TRemoteIP rs => map neg_word rs
+                      | TLocalIP rs => map range_word rs
+                      end) false [].
+Definition tlsm_json (t : tlsm) : json :=
+  match t with
+  | TSni l | TAlpn l => JArr (map JStr l)
+  | TRemoteIP rs =>
+      JObj (omit [("ranges", o_strs (flat_map (fun nr => range_json (snd nr)) (filter (fun nr => negb (fst nr)) rs)));
+                  ("not_ranges", o_strs (flat_map (fun nr => range_json (snd nr)) (filter fst rs)))])
+  | TLocalIP rs => JObj (omit [("ranges", o_strs (flat_map range_json rs))])
+  end.
+
 Inductive mleaf :=
+| MTls (quic il : bool) (subs : list tlsm)
 | MSsh | MXmpp | MPostgres | MProxyProtocol
 | MSocks4 (cmds : list string) (nets : list range) (ports : list N)
 | MSocks5 (auth : list N)
@@ -128,6 +154,7 @@ Inductive mleaf :=
 
 Definition mleaf_name (m : mleaf) : string :=
   match m with
+  | MTls quic _ _ => if quic then "quic" else "tls"
   | MSsh => "ssh" | MXmpp => "xmpp" | MPostgres => "postgres" | MProxyProtocol => "proxy_protocol"
   | MSocks4 _ _ _ => "socks4" | MSocks5 _ => "socks5" | MRegexp _ _ => "regexp" | MClock _ _ => "clock"
   | MWireguard _ => "wireguard" | MWinbox _ _ => "winbox" | MRemoteIP _ => "remote_ip"
@@ -151,6 +178,7 @@ Definition key_sel (file : bool) (o : option (bool * string)) : option string :=
 
 Definition mleaf_seg (m : mleaf) : seg :=
   match m with
+  | MTls quic il subs => set_seg (if quic then "quic" else "tls") il (map tlsm_seg subs)
   | MSsh | MXmpp | MPostgres | MProxyProtocol => Seg [mleaf_name m] false []
   | MSocks4 cmds nets ports =>
       blockL "socks4" [] [("commands", occ_if cmds); ("networks", occ_if (map range_word nets));
@@ -208,6 +236,7 @@ Definition key_val (file : bool) (o : option (bool * string)) : string :=
 Definition time0 : string := cstr l4clock_timeMin.
 Definition mleaf_json (m : mleaf) : json :=
   match m with
+  | MTls _ _ subs => JObj (sort_kv (map (fun t => (tlsm_name t, tlsm_json t)) subs))
   | MSsh | MXmpp | MPostgres | MProxyProtocol => JObj []
   | MSocks4 cmds nets ports =>
       JObj (omit [("commands", o_strs cmds); ("networks", o_strs (flat_map range_json nets));
@@ -389,7 +418,46 @@ Definition parse_openvpn (e : seg) : option json :=
                       ("client_keys", o_strs ck); ("client_key_files", o_strs ckf)]))
   else None.
 
+(* l4tls: remote_ip token: optional leading "!" (only when something follows), then private_ranges or a range *)
+Definition parse_neg_word (w : string) : bool * list string :=
+  let nv := match w with
+            | String c (String c2 r) => if Ascii.eqb c "!" then (true, String c2 r) else (false, w)
+            | _ => (false, w)
+            end in
+  (fst nv, if snd nv =? "private_ranges" then private_ranges else [snd nv]).
+Definition parse_tlsm (name : string) (e : seg) : option json :=
+  match e with
+  | Seg (_ :: a :: rest) _ [] =>
+      let args := a :: rest in
+      if (name =? "sni") || (name =? "alpn") then Some (JArr (map JStr args))
+      else if name =? "local_ip" then Some (JObj (omit [("ranges", o_strs (expand_priv args))]))
+      else if name =? "remote_ip" then
+        let ps := map parse_neg_word args in
+        Some (JObj (omit [("ranges", o_strs (flat_map snd (filter (fun p => negb (fst p)) ps)));
+                          ("not_ranges", o_strs (flat_map snd (filter fst ps)))]))
+      else None
+  | _ => None
+  end.
+(* tokens of a repeated matcher name are appended to the first one's, and only the first segment
+   is handed to the matcher: later occurrences are dropped *)
+Fixpoint dedup_first (seen : list string) (l : list seg) : list seg :=
+  match l with
+  | [] => []
+  | e :: r => if existsb (String.eqb (seg_name e)) seen then dedup_first seen r
+              else e :: dedup_first (seg_name e :: seen) r
+  end.
+(* MatchTLS / MatchQUIC.UnmarshalCaddyfile = l4tls.ParseCaddyfileNestedMatcherSet *)
+Definition parse_tls (e : seg) : option json :=
+  match e with
+  | Seg (_ :: args) hb body =>
+      let entries := match args with [] => body | _ => [Seg args hb body] end in
+      ms <- traverse (fun en => j <- parse_tlsm (seg_name en) en ;; Some (seg_name en, j)) (dedup_first [] entries) ;;
+      Some (JObj (sort_kv ms))
+  | _ => None
+  end.
+
 Definition mleaf_parse (name : string) (e : seg) : option json :=
+  if (name =? "tls") || (name =? "quic") then parse_tls e else
   if (name =? "ssh") || (name =? "xmpp") || (name =? "postgres") || (name =? "proxy_protocol") then parse_bare e
   else if name =? "socks4" then parse_socks4 e
   else if name =? "socks5" then parse_socks5m e
@@ -729,8 +797,18 @@ Definition dns_rule_ok (r : dns_rule) : bool :=
   | None => negb (is_some (dr_class r))
   | Some t => ostar_ok t && match dr_class r with Some c => ostar_ok c | None => true end
   end.
+Definition no_bang (s : string) : bool := match s with String c _ => negb (Ascii.eqb c "!") | EmptyString => false end.
+Definition neg_range_ok (nr : bool * range) : bool :=
+  match snd nr with RPrivate => true | RCidr s => negb (s =? "private_ranges") && no_bang s end.
+Definition tlsm_ok (t : tlsm) : bool :=
+  match t with
+  | TSni l | TAlpn l => negb (is_nil l)
+  | TRemoteIP rs => negb (is_nil rs) && forallb neg_range_ok rs
+  | TLocalIP rs => negb (is_nil rs) && forallb range_ok rs
+  end.
 Definition mleaf_ok (m : mleaf) : bool :=
   match m with
+  | MTls _ _ subs => negb (has_dup (map tlsm_name subs)) && forallb tlsm_ok subs
   | MSsh | MXmpp | MPostgres | MProxyProtocol => true
   | MSocks4 _ nets ports => forallb range_ok nets && forallb (nbits_ok 16) ports
   | MSocks5 auth => forallb (nbits_ok 8) auth
